@@ -439,6 +439,30 @@ func c14Ops() []c14Op {
 			}
 			return out.Attributes, exp, true
 		}},
+		{"output/DeleteItem.Attributes(other key)", func(ad string, cl adapt.Client, it val.Item) (interface{}, val.Item, bool) {
+			// the old image of a DELETED item is handed to the caller; the item that stays must not be reachable from it
+			second := c14SecondKey()
+			for k, v := range it {
+				if _, isKey := c14Key[k]; !isKey {
+					second[k] = v
+				}
+			}
+			if cl.Do(adapt.Op{Kind: adapt.OpPut, Table: "tbl14", Item: second}).Class != adapt.ClsOK {
+				return nil, nil, false
+			}
+			if ad == "v1" {
+				out, err := cl.Raw().(*v1client.Client).DeleteItem(&v1ddb.DeleteItemInput{TableName: aws.String("tbl14"), Key: adapt.ItemToV1(c14SecondKey()), ReturnValues: aws.String("ALL_OLD")})
+				if err != nil || out.Attributes == nil {
+					return nil, nil, false
+				}
+				return out.Attributes, it, true
+			}
+			out, err := cl.Raw().(*v2client.Client).DeleteItem(ctx, &v2ddb.DeleteItemInput{TableName: v2aws.String("tbl14"), Key: adapt.ItemToV2(c14SecondKey()), ReturnValues: v2types.ReturnValueAllOld})
+			if err != nil || out.Attributes == nil {
+				return nil, nil, false
+			}
+			return out.Attributes, it, true
+		}},
 		{"output/BatchGetItem", func(ad string, cl adapt.Client, it val.Item) (interface{}, val.Item, bool) {
 			if ad == "v1" {
 				return nil, nil, false
@@ -461,6 +485,30 @@ func c14Ops() []c14Op {
 			}
 			return ccf.Item, it, true
 		}},
+	}
+	for _, rv := range []string{"ALL_OLD", "UPDATED_OLD", "ALL_NEW", "UPDATED_NEW"} {
+		rv := rv
+		outputs = append(outputs, struct {
+			name string
+			run  func(ad string, cl adapt.Client, it val.Item) (interface{}, val.Item, bool)
+		}{"output/UpdateItem.Attributes(" + rv + ")", func(ad string, cl adapt.Client, it val.Item) (interface{}, val.Item, bool) {
+			// whatever image the library returns for this ReturnValues setting (the replaced item, the new one, parts
+			// of either): it is the caller's from now on
+			exp := it.Clone()
+			exp["touched"] = val.Str("yes")
+			if ad == "v1" {
+				out, err := cl.Raw().(*v1client.Client).UpdateItem(&v1ddb.UpdateItemInput{TableName: aws.String("tbl14"), Key: adapt.ItemToV1(c14Key), UpdateExpression: aws.String("SET touched = :t"), ExpressionAttributeValues: adapt.ItemToV1(val.Item{":t": val.Str("yes")}), ReturnValues: aws.String(rv)})
+				if err != nil || out.Attributes == nil {
+					return nil, nil, false
+				}
+				return out.Attributes, exp, true
+			}
+			out, err := cl.Raw().(*v2client.Client).UpdateItem(ctx, &v2ddb.UpdateItemInput{TableName: v2aws.String("tbl14"), Key: adapt.ItemToV2(c14Key), UpdateExpression: v2aws.String("SET touched = :t"), ExpressionAttributeValues: adapt.ItemToV2(val.Item{":t": val.Str("yes")}), ReturnValues: v2types.ReturnValue(rv)})
+			if err != nil || out.Attributes == nil {
+				return nil, nil, false
+			}
+			return out.Attributes, exp, true
+		}})
 	}
 	for _, o := range outputs {
 		o := o
